@@ -1,47 +1,48 @@
 import CollectionsC.Properties.C01Sized
-import CollectionsC.Proofs.ArraySized7
+import CollectionsC.Proofs.ArraySized8
 /-! # C08 (sized array part) — a refused allocation is atomic
 
-Statements only.  The allocator's answer to the next request is `m.alloc.1` (`false` = refused), for
-every schedule.  `alloc2ok m` says that both requests of a builder/constructor are granted. -/
+Statements only.  The answer of the array's own allocator to the next request is
+`(m.allocT a.triple).1` (`false` = refused; only the configured allocator can refuse), for every
+schedule.  `alloc2ok m t` says that both requests of a builder/constructor on triple `t` are granted. -/
 namespace CC.Properties.C08Sized
 open CC CC.Gen CC.ArraySized
 
 /-- **refused_iff**: `add`, `add_at` and `trim_capacity` report `CC_ERR_ALLOC` exactly when they had
 to ask the allocator and it refused -/
 theorem refused_iff (a : ArraySized) (e : Buf Nat) (i : Nat) (m : Mem) (h : a.Inv) (he : e.length = a.dataLen) :
-    ((a.add e m).1 = .errAlloc ↔ (a.size = a.capacity ∧ ¬ a.AtLimit ∧ m.alloc.1 = false)) ∧
-    ((a.addAt e i m).1 = .errAlloc ↔ (i ≤ a.size ∧ a.size = a.capacity ∧ ¬ a.AtLimit ∧ m.alloc.1 = false)) ∧
-    ((a.trimCapacity m).1 = .errAlloc ↔ (a.size ≠ a.capacity ∧ max a.size 1 ≠ a.capacity ∧ m.alloc.1 = false)) :=
+    ((a.add e m).1 = .errAlloc ↔ (a.size = a.capacity ∧ ¬ a.AtLimit ∧ (m.allocT a.triple).1 = false)) ∧
+    ((a.addAt e i m).1 = .errAlloc ↔ (i ≤ a.size ∧ a.size = a.capacity ∧ ¬ a.AtLimit ∧ (m.allocT a.triple).1 = false)) ∧
+    ((a.trimCapacity m).1 = .errAlloc ↔ (a.size ≠ a.capacity ∧ max a.size 1 ≠ a.capacity ∧ (m.allocT a.triple).1 = false)) :=
   ⟨add_refused_iff a e m h he, addAt_refused_iff a e i m h he, trim_refused_iff a m⟩
 
 /-- **refused_iff** for the builders and the constructor: `CC_ERR_ALLOC` exactly when the call got
 past its argument checks and one of its two requests was refused -/
 theorem builders_refused_iff (a : ArraySized) (b e : Nat) (p : List Nat → Bool) (m : Mem)
-    (dl cap : Nat) (grow : Nat → Nat) (exGe : Nat → Bool) :
-    ((a.copy m).1 = .errAlloc ↔ alloc2ok m = false) ∧
-    ((a.subarray b e m).1 = .errAlloc ↔ (b ≤ e ∧ e < a.size ∧ alloc2ok m = false)) ∧
-    ((a.filter p m).1 = .errAlloc ↔ (0 < a.size ∧ alloc2ok m = false)) ∧
-    ((ArraySized.new dl cap grow exGe m).1 = .errAlloc ↔
-      ((ArraySized.new dl cap grow exGe m).1 ≠ .errInvalidCapacity ∧ alloc2ok m = false)) :=
-  ⟨copy_refused_iff a m, subarray_refused_iff a b e m, filter_refused_iff a p m, new_refused_iff dl cap grow exGe m⟩
+    (dl cap : Nat) (grow : Nat → Nat) (exGe : Nat → Bool) (t : Triple) :
+    ((a.copy m).1 = .errAlloc ↔ alloc2ok m a.triple = false) ∧
+    ((a.subarray b e m).1 = .errAlloc ↔ (b ≤ e ∧ e < a.size ∧ alloc2ok m a.triple = false)) ∧
+    ((a.filter p m).1 = .errAlloc ↔ (0 < a.size ∧ alloc2ok m a.triple = false)) ∧
+    ((ArraySized.new dl cap grow exGe m t).1 = .errAlloc ↔
+      ((ArraySized.new dl cap grow exGe m t).1 ≠ .errInvalidCapacity ∧ alloc2ok m t = false)) :=
+  ⟨copy_refused_iff a m, subarray_refused_iff a b e m, filter_refused_iff a p m, new_refused_iff dl cap grow exGe m t⟩
 
 /-- **atomic**, core API: status `CC_ERR_ALLOC` ⇒ the whole physical state is unchanged, no block
 gained or lost, no fault, and the allocator had indeed refused -/
 theorem atomic (a : ArraySized) (op : Spec.SSeq.Op Elem) (m : Mem) (h : a.Inv) (hw : OpWF a.dataLen op)
     (hst : (a.step op m).1.st = some .errAlloc) :
-    (a.step op m).2.1 = a ∧ (a.step op m).2.2.live = m.live ∧ (a.step op m).2.2.fault = m.fault ∧
-    m.alloc.1 = false := step_atomic a op m h hw hst
+    (a.step op m).2.1 = a ∧ own (a.step op m).2.2 a.triple = own m a.triple ∧ (a.step op m).2.2.fault = m.fault ∧
+    (m.allocT a.triple).1 = false := step_atomic a op m h hw hst
 
 /-- **atomic**, builders and constructor: no object, balanced ledger -/
 theorem builders_atomic (a : ArraySized) (b e : Nat) (p : List Nat → Bool) (m : Mem) (h : a.Inv)
-    (dl cap : Nat) (grow : Nat → Nat) (exGe : Nat → Bool) :
-    ((a.copy m).1 = .errAlloc → (a.copy m).2.1 = none ∧ MemSame m (a.copy m).2.2) ∧
-    ((a.subarray b e m).1 = .errAlloc → (a.subarray b e m).2.1 = none ∧ MemSame m (a.subarray b e m).2.2) ∧
-    ((a.filter p m).1 = .errAlloc → (a.filter p m).2.2.1 = none ∧ MemSame m (a.filter p m).2.2.2) ∧
-    ((ArraySized.new dl cap grow exGe m).1 = .errAlloc →
-      (ArraySized.new dl cap grow exGe m).2.1 = none ∧ MemSame m (ArraySized.new dl cap grow exGe m).2.2) := by
-  refine ⟨?_, ?_, ?_, new_refused dl cap grow exGe m⟩
+    (dl cap : Nat) (grow : Nat → Nat) (exGe : Nat → Bool) (t : Triple) :
+    ((a.copy m).1 = .errAlloc → (a.copy m).2.1 = none ∧ MemSame a.triple m (a.copy m).2.2) ∧
+    ((a.subarray b e m).1 = .errAlloc → (a.subarray b e m).2.1 = none ∧ MemSame a.triple m (a.subarray b e m).2.2) ∧
+    ((a.filter p m).1 = .errAlloc → (a.filter p m).2.2.1 = none ∧ MemSame a.triple m (a.filter p m).2.2.2) ∧
+    ((ArraySized.new dl cap grow exGe m t).1 = .errAlloc →
+      (ArraySized.new dl cap grow exGe m t).2.1 = none ∧ MemSame t m (ArraySized.new dl cap grow exGe m t).2.2) := by
+  refine ⟨?_, ?_, ?_, fun hst => ⟨(new_refused dl cap grow exGe m t hst).1, (new_refused dl cap grow exGe m t hst).2.1⟩⟩
   · intro hst
     rcases copy_spec a m h with ⟨s, h1, _⟩ | ⟨_, h2, h3⟩
     · rw [h1] at hst; cases hst
@@ -61,7 +62,7 @@ theorem builders_atomic (a : ArraySized) (b e : Nat) (p : List Nat → Bool) (m 
 refused `zip_iter_add` leaves both contents and the cursor unchanged (A8) -/
 theorem iter_atomic (it : Iter) (a : ArraySized) (c : Spec.SSeq.Cursor Elem) (e : Buf Nat) (m : Mem) (h : a.Inv)
     (he : e.length = a.dataLen) (hrel : IterRel it a c) (hst : (a.iterAdd it e m).1 ≠ .ok) :
-    (a.iterAdd it e m).2.1 = it ∧ (a.iterAdd it e m).2.2.1 = a ∧ MemSame m (a.iterAdd it e m).2.2.2 := by
+    (a.iterAdd it e m).2.1 = it ∧ (a.iterAdd it e m).2.2.1 = a ∧ MemSame a.triple m (a.iterAdd it e m).2.2.2 := by
   rcases iterAdd_refines it a c e m h he hrel with ⟨a1, _⟩ | ⟨_, a2, a3, a4⟩
   · exact absurd a1 hst
   · exact ⟨a2, a3, a4⟩
@@ -71,7 +72,7 @@ theorem zip_atomic (it : Iter) (a1 a2 : ArraySized) (c : Spec.SSeq.ZipCursor Ele
     (hrel : ZipRel it a1 a2 c) (hst : (zipAdd it a1 a2 e1 e2 m).1 ≠ .ok) :
     (zipAdd it a1 a2 e1 e2 m).1 = .errAlloc ∧
     (zipAdd it a1 a2 e1 e2 m).2.2.1.abs = a1.abs ∧ (zipAdd it a1 a2 e1 e2 m).2.2.2.1.abs = a2.abs ∧
-    (zipAdd it a1 a2 e1 e2 m).2.1 = it ∧ MemSame m (zipAdd it a1 a2 e1 e2 m).2.2.2.2 := by
+    (zipAdd it a1 a2 e1 e2 m).2.1 = it ∧ Bal m (zipAdd it a1 a2 e1 e2 m).2.2.2.2 := by
   rcases zipAdd_spec it a1 a2 c e1 e2 m i1 i2 he1 he2 hrel with ⟨h1, _⟩ | ⟨h1, h2, h3, _, _, h6, h7, _⟩
   · exact absurd h1 hst
   · exact ⟨h1, h2, h3, h7, h6⟩
@@ -87,5 +88,25 @@ theorem continue_after_refusal (ops1 ops2 : List (Spec.SSeq.Op Elem)) (op : Spec
       (a.run ops1 m).1 ++ ((a.run ops1 m).2.1.step op (a.run ops1 m).2.2).1 :: ((a.run ops1 m).2.1.run ops2 m2).1 ∧
     (a.run (ops1 ++ op :: ops2) m).2.1 = ((a.run ops1 m).2.1.run ops2 m2).2.1 :=
   run_continue ops1 ops2 op a m m2 h hw href hs
+
+/-- an array on the C library allocator is never refused: no call reports `CC_ERR_ALLOC` -/
+theorem libc_never_refused (a : ArraySized) (op : Spec.SSeq.Op Elem) (m : Mem) (h : a.Inv) (hw : OpWF a.dataLen op)
+    (ht : a.triple = .libc) : (a.step op m).1.st ≠ some .errAlloc := ArraySized.libc_never_refused a op m h hw ht
+
+/-- conversely, with an allocator that grants every request a history is refused nowhere as long as
+the array never stands at its size limit: every refusal in a history is an allocator refusal or the
+documented limit -/
+theorem history_unrefused (a : ArraySized) (ops : List (Spec.SSeq.Op Elem)) (m : Mem) (h : a.Inv)
+    (hw : ∀ op ∈ ops, OpWF a.dataLen op) (hg : Grants a.triple m)
+    (hl : ∀ k, k ≤ ops.length → ¬ (a.run (ops.take k) m).2.1.AtLimit) :
+    a.refusals ops m = List.replicate ops.length none := run_unrefused ops a m h hw hg hl
+
+/-! Non-vacuity: a full one-slot array, schedule `[true]`: the `add` is refused, the state is
+physically unchanged, the next `add` (schedule exhausted: granted) succeeds. -/
+example :
+    let a : ArraySized := { dataLen := 2, size := 1, capacity := 1, grow := fun c => 2 * c, buf := [7, 0] }
+    let m : Mem := { sched := [true], live := 2 }
+    a.Inv ∧ (a.add [1, 1] m).1 = .errAlloc ∧ (a.add [1, 1] m).2.1.abs = a.abs ∧
+    ((a.add [1, 1] m).2.1.add [1, 1] (a.add [1, 1] m).2.2).1 = .ok := by decide
 
 end CC.Properties.C08Sized
